@@ -99,21 +99,50 @@ func sumFunc(arg query) func(query, iterator) interface{} {
 		switch typ := functionArgs(arg).Evaluate(t).(type) {
 		case query:
 			for node := typ.Select(t); node != nil; node = typ.Select(t) {
-				if v, err := strconv.ParseFloat(node.Value(), 64); err == nil {
+				if v := stringToNumber(node.Value()); !math.IsNaN(v) {
 					sum += v
 				}
 			}
 		case float64:
 			sum = typ
 		case string:
-			v, err := strconv.ParseFloat(typ, 64)
-			if err != nil {
+			v := stringToNumber(typ)
+			if math.IsNaN(v) {
 				panic(errors.New("sum() function argument type must be a node-set or number"))
 			}
 			sum = v
 		}
 		return sum
 	}
+}
+
+// stringToNumber converts a string to a number as the XPath number() function
+// does: optional whitespace, an optional minus sign and a decimal number
+// (digits with an optional fraction), and NaN for anything else. Go's float
+// syntax is wider ("1e3", "+1", "inf", "0x10") and does not allow the
+// surrounding whitespace.
+func stringToNumber(s string) float64 {
+	s = strings.Trim(s, " \t\r\n")
+	i, digits := 0, false
+	if i < len(s) && s[i] == '-' {
+		i++
+	}
+	for ; i < len(s) && s[i] >= '0' && s[i] <= '9'; i++ {
+		digits = true
+	}
+	if i < len(s) && s[i] == '.' {
+		for i++; i < len(s) && s[i] >= '0' && s[i] <= '9'; i++ {
+			digits = true
+		}
+	}
+	if i != len(s) || !digits {
+		return math.NaN()
+	}
+	v, err := strconv.ParseFloat(s, 64)
+	if err != nil {
+		return math.NaN()
+	}
+	return v
 }
 
 func asNumber(t iterator, o interface{}) float64 {
@@ -123,16 +152,11 @@ func asNumber(t iterator, o interface{}) float64 {
 		if node == nil {
 			return math.NaN()
 		}
-		if v, err := strconv.ParseFloat(node.Value(), 64); err == nil {
-			return v
-		}
+		return stringToNumber(node.Value())
 	case float64:
 		return typ
 	case string:
-		v, err := strconv.ParseFloat(typ, 64)
-		if err == nil {
-			return v
-		}
+		return stringToNumber(typ)
 	}
 	return math.NaN()
 }
